@@ -25,7 +25,7 @@ RULE = (
 EXHAUSTIVE_SUBSPACES = ["all complete assignments for discrete circuits with <= 128 assignments", "all 4 (fold, optimize) combinations (even cases)"]
 ASSUMPTIONS = ["reference interpreter vf/ref.py"]
 FLOOR = {"complex-weights": 1, "in:gaussian-lp": 1, "in:categorical-logits": 1, "operand:product": 1, "operand:evidence": 1,
-         "double-conjugation": 1, "integral-relation": 1, "real-circuit": 1, "values_compared": 500, "multi-output": 1}
+         "double-conjugation": 1, "integral-relation": 1, "real-circuit": 1, "values_compared": 500, "multi-output": 1, "via-pipeline-context": 1}
 
 KINDS = ["complex", "complex", "real", "real", "real-mono", "product-gauss", "product-gauss", "product", "product", "evidence", "integral", "concat"]
 
@@ -145,6 +145,31 @@ def run_case(case) -> Result:
             if sr == "lse-sum" and not all(C.monotone_ok(x, comp) for x in tie.pipeline_circuits(c)):
                 continue
             one_round(res, comp, c, cj, ccj, ccjj, integ, pool, sr, tag, vcls, tol, real)
+    # the same through the compiled-circuit interface of a pipeline context (operator results as
+    # operands: conjugate of a derived circuit, conjugate of a conjugate)
+    import cirkit.pipeline as PL
+
+    fold, opt = flags[-1]
+    ctx = PL.PipelineContext(backend="torch", semiring=sr, fold=fold, optimize=opt)
+    o = call(ctx.compile, c)
+    if o.ok:
+        comp = ctx._compiler  # pylint: disable=protected-access
+        if sr == "lse-sum" and not all(C.monotone_ok(x, comp) for x in tie.pipeline_circuits(c)):
+            return res
+        via = rng.choice(["method", "module"])
+        o1 = call(ctx.conjugate, o.value) if via == "method" else call(PL.conjugate, o.value, ctx=ctx)
+        o2 = call(ctx.conjugate, o1.value) if o1.ok else None
+        if not o1.ok or not o2.ok:
+            exc_violation(res, o1 if not o1.ok else o2, f"pipeline conjugate [{C.flag_name(fold, opt)}]")
+            return res
+        res.features.add("via-pipeline-context")
+        r, a = C.reference(c, comp, pool)
+        if np.all(np.isfinite(a)):
+            if pool is None:
+                r, a = r[0], a[0]
+            tagp = f"{C.flag_name(fold, opt)} pipeline-context ({via})"
+            C.check_expected(res, o1.value, pool, np.conj(r), a, sr, f"{tagp} conjugate(c)", tol, vclass="conjugate-mismatch")
+            C.check_expected(res, o2.value, pool, r, a, sr, f"{tagp} conjugate(conjugate(c))", tol, vclass="double-conjugate-mismatch")
     return res
 
 
